@@ -54,13 +54,16 @@ def groups (s : Str) : List Str := (groupR s.reverse).reverse
 
 def isEnglish (code : Str) : Bool := code == lit "en" || code == lit "en_US"
 
+/-- the body of `friendly_number` on `s = str(value)`: an optional leading `-` is set aside,
+    the rest is grouped from the right. -/
+def friendlyStr (s : Str) : Str :=
+  match s with
+  | [] => joinWith [cComma] (groups [])
+  | c :: r => if c = cMinus then cMinus :: joinWith [cComma] (groups r) else joinWith [cComma] (groups (c :: r))
+
 /-- `Locale.friendly_number(value)` for an `int` value. -/
 def friendlyNumber (code : Str) (value : Int) : Str :=
-  if !isEnglish code then intStr value
-  else
-    match intStr value with
-    | 45 :: s => cMinus :: joinWith [cComma] (groups s)
-    | s => joinWith [cComma] (groups s)
+  if isEnglish code then friendlyStr (intStr value) else intStr value
 
 /-! ### calendar arithmetic (proleptic Gregorian, as `datetime`) -/
 
@@ -150,21 +153,32 @@ def roundHalfEven (p q : Nat) : Nat :=
   else if q < 2 * r then k + 1
   else if k % 2 = 0 then k else k + 1
 
+/-- the relative phrase for `seconds = difference.seconds` (same day) -/
+def relPhrase (seconds : Nat) : Out :=
+  if seconds < 50 then .rel .second seconds
+  else if seconds < 3000 then .rel .minute (roundHalfEven seconds 60)
+  else .rel .hour (roundHalfEven seconds 3600)
+
+/-- `date > now and relative and (date - now) < timedelta(seconds=60)`: the date is set to `now` -/
+def clamped (a : Args) : Bool :=
+  decide (a.date > a.now) && a.relative && decide (a.date - a.now < 60 * usPerSec)
+
+/-- `date` after the clamp -/
+def effDate (a : Args) : Int := if clamped a then a.now else a.date
+
+/-- `full_format` after the future test -/
+def isFull (a : Args) : Bool := a.fullFormat || (decide (a.date > a.now) && !clamped a)
+
 def formatDate (a : Args) : Out :=
-  let future := a.date > a.now
-  let clamp := future && a.relative && (a.date - a.now < 60 * usPerSec)
-  let date := if clamp then a.now else a.date
-  let full := a.fullFormat || (future && !clamp)
+  let date := effDate a
+  let full := isFull a
   let localDate := date - a.gmtOffset * 60 * usPerSec
   let localNow := a.now - a.gmtOffset * 60 * usPerSec
   let localYesterday := localNow - usPerDay
   let diff := a.now - date
   let days := diff / usPerDay
   let seconds := ((diff % usPerDay) / usPerSec).toNat
-  if !full && a.relative && days == 0 then
-    if seconds < 50 then .rel .second seconds
-    else if seconds < 3000 then .rel .minute (roundHalfEven seconds 60)
-    else .rel .hour (roundHalfEven seconds 3600)
+  if !full && a.relative && days == 0 then relPhrase seconds
   else
     let f : Fmt :=
       if full then .full
